@@ -199,9 +199,12 @@ def _shape_grid(pid):
         cnt = []
         fails = rt.rt_shapes_grid(count=cnt)
         fails += rt.rt_c08_definitions(count=cnt)
+        import treefuzz
+
+        fails += treefuzz.rt_trees(tier, count=cnt)
         cnt = [sum(cnt)]
         return dict(evaluations=cnt[0] if cnt else 0, distinct_nontrivial=cnt[0] if cnt else 0,
-                    rule="combinators vs a reference interpreter of their definitions over the children's own methods (Chain, slicing, merge_chains, Scan==Chain, Vmap mapped/broadcast, Stack/Concatenate every axis, Partial index kinds, Invert, Reshape, EmbedCondition); real Stack / Concatenate / Vmap / Reshape on an exhaustive small lattice: child ranks 0-3, EVERY valid axis incl. negative ones, cond ranks 0-2, rank-0 reshape targets; declared shape vs jnp.stack/jnp.concatenate/vmap semantics and all four methods called with inputs of the declared shapes",
+                    rule="combinators vs a reference interpreter of their definitions over the children's own methods (Chain, slicing, merge_chains, Scan==Chain, Vmap mapped/broadcast, Stack/Concatenate every axis, Partial index kinds, Invert, Reshape, EmbedCondition); real Stack / Concatenate / Vmap / Reshape on an exhaustive small lattice: child ranks 0-3, EVERY valid axis incl. negative ones, cond ranks 0-2, rank-0 reshape targets; declared shape vs jnp.stack/jnp.concatenate/vmap semantics and all four methods called with inputs of the declared shapes; random expression trees (depth <= 3, 60 quick / 400 thorough, fixed seeds) over Affine/Exp/Tanh/SoftPlus/Permute/AdditiveCondition leaves and Chain/Invert/Concatenate/Stack/Partial/Reshape/Vmap/EmbedCondition: declared shape, same point, round trip, log-det vs autodiff",
                     samples=[dict(cls="Stack", s0=[2, 3], axis=-1)], failures=fails[:5], errors=[])
     return g
 
